@@ -69,6 +69,16 @@ Definition ok_sites (F : facts) : bool :=
 Definition ok_pipeline (F : facts) : bool := strs_eqb (f_pipeline F) (f_pipeline documented).
 Definition ok_resets (F : facts) : bool := strs_eqb (f_resets F) (f_resets documented).
 
+(* F16: the per-call attributes assigned by validate() before __init_processing *)
+Definition ok_prologue (F : facts) : bool := strs_eqb (f_validate_prologue F) (f_validate_prologue documented).
+(* F21: the cache key is type-aware and every class has its own cache *)
+Definition ok_cache_keys (F : facts) : bool := f_cache_typed_scalars F && f_cache_per_class F.
+Definition cache_tag (F : facts) (site : string) : string :=
+  match find (fun p => String.eqb (fst p) site) (f_cache_sites F) with Some p => snd p | None => "?" end.
+(* bulk rule sets and *of definitions are keyed apart (NOT the case on the current tree: known finding C08) *)
+Definition cache_contexts_distinct (F : facts) : bool :=
+  negb (String.eqb (cache_tag F "check_with_bulk_schema") (cache_tag F "validate_logical")).
+
 Definition ok_validation (F : facts) : bool :=
   ok_errors F && ok_queue F && ok_types F && ok_of F && ok_sites F.
 
